@@ -326,6 +326,7 @@ class Program:
                     fillex(k.gotype, k.kids)
         fillex(self.root, self.kids)
         o.append('func VFillExcluded(a *Rec) { vFillExcl_%s(a) }\n' % self.root)
+        o.append('func VSameRec(a, b Rec) bool { return vSame_%s(a, b) }\n' % self.root)
 
         # ---- mutate every reachable cell behind pointers and slices (C01 aliasing clause)
         def mutate(tname, kids):
@@ -693,3 +694,89 @@ def pair_source(pkg, base, dec, bpk, dpk):
     L += ['\treturn rb, rd', '}\n']
     o.append('\n'.join(L))
     return '\n'.join(o)
+
+
+# -------------------------------------------------------------------- C15 helpers
+C15_TYPES = ['int32', 'int64', 'float32', 'float64', 'bool', 'string']
+
+
+def nonrepeated_shapes(max_nodes):
+    for s, n in grammar_shapes(max_nodes):
+        def ok(ms):
+            return all(m[1] != 'rep' and (m[0] == 'L' or ok(m[2])) for m in ms)
+        if ok(s):
+            yield s, n
+
+
+def c15_program(name, shape, offset=0):
+    """Non-repeated shape with lower-case column names, unique group names, leaf types rotating over the six signed/float/bool/string types."""
+    cnt = itertools.count()
+
+    def build(ms):
+        out = []
+        for m in ms:
+            idx = next(cnt)
+            nm = chr(ord('A') + idx % 26)
+            if m[0] == 'L':
+                out.append(leaf(nm + 'f', C15_TYPES[(idx + offset) % 6], m[1], tag=nm.lower() + 'f'))
+            else:
+                out.append(group(nm + 'g', build(m[2]), m[1], tag=nm.lower() + 'g'))
+        return out
+    return Program(name, build(shape))
+
+
+def parse_struct_file(src):
+    """Parse the struct file parquetgen -parquet emits: {type name: [(field, star, type, tag)]}."""
+    import re
+    types = {}
+    cur = None
+    for line in src.splitlines():
+        m = re.match(r'^type (\w+) struct \{', line)
+        if m:
+            cur = m.group(1)
+            types[cur] = []
+            continue
+        if line.startswith('}'):
+            cur = None
+            continue
+        m = re.match(r'^\s*(\w+)\s+(\*?)(\[\])?(\w+)\s+`parquet:"([^"]*)"`', line)
+        if m and cur:
+            types[cur].append((m.group(1), m.group(2) == '*', m.group(3) is not None, m.group(4), m.group(5)))
+    return types
+
+
+def program_from_types(name, types, root='Rec'):
+    def build(tname, base_path):
+        out = []
+        for (fname, star, isrep, tname2, tag) in types[tname]:
+            rep = 'rep' if isrep else ('opt' if star else 'req')
+            if tname2 in PRIMS:
+                f = leaf(fname, tname2, rep, tag=tag)
+            else:
+                f = group(fname, build(tname2, None), rep, tag=tag)
+                f.gotype = tname2
+            out.append(f)
+        return out
+    return Program(name, build(root, []), root=root)
+
+
+def same_structure(a_kids, b_kids, path=''):
+    """Compare two member lists by column name, kind, type and repetition; returns list of differences; sets base_path on b."""
+    diffs = []
+    if len(a_kids) != len(b_kids):
+        return ['%s: %d members vs %d' % (path or 'root', len(a_kids), len(b_kids))]
+    for x, y in zip(a_kids, b_kids):
+        p = path + '.' + x.col()
+        if x.col() != y.col():
+            diffs.append('%s: column name %s vs %s' % (p, x.col(), y.col()))
+        if x.rep != y.rep:
+            diffs.append('%s: repetition %s vs %s' % (p, x.rep, y.rep))
+        if x.is_leaf() != y.is_leaf():
+            diffs.append('%s: leaf vs group' % p)
+            continue
+        if x.is_leaf():
+            if x.typ != y.typ:
+                diffs.append('%s: type %s vs %s' % (p, x.typ, y.typ))
+        else:
+            diffs += same_structure(x.kids, y.kids, p)
+    return diffs
